@@ -422,3 +422,57 @@ pub fn claim_minimisation(class: &str) -> bool {
         true
     }
 }
+
+/// Committed regression scenarios (replay files of repaired defects and of
+/// seeded breakages): re-executed by every run of the property's check.
+pub fn regression_files(property: &str) -> Vec<String> {
+    let dir = format!("{VERIF_DIR}/regressions");
+    let mut out = Vec::new();
+    if let Ok(rd) = std::fs::read_dir(&dir) {
+        for e in rd.flatten() {
+            let name = e.file_name().to_string_lossy().to_string();
+            if name.starts_with(&format!("{property}-")) && name.ends_with(".json") {
+                out.push(format!("{dir}/{name}"));
+            }
+        }
+    }
+    out.sort();
+    out
+}
+
+/// Runs the regression scenarios through `replay`; returns (count, failures as printed lines).
+pub fn run_regressions(property: &str, replay: impl Fn(&Json) -> Result<Option<Violation>, String>) -> (usize, usize) {
+    let files = regression_files(property);
+    let known = load_known_findings();
+    let mut failed = 0;
+    for f in &files {
+        let j = match std::fs::read_to_string(f).map_err(|e| e.to_string()).and_then(|t| crate::json::parse(&t)) {
+            Ok(j) => j,
+            Err(e) => {
+                eprintln!("HARNESS ERROR: regression file {f}: {e}");
+                std::process::exit(2);
+            }
+        };
+        let Some(sc) = j.get("scenario") else {
+            eprintln!("HARNESS ERROR: regression file {f} has no scenario");
+            std::process::exit(2);
+        };
+        match replay(sc) {
+            Ok(None) => {}
+            Ok(Some(v)) => {
+                if let Some(k) = known.iter().find(|k| k.property == v.property && v.class.contains(&k.sig)) {
+                    println!("KNOWN-FINDING: property={} {} [sig={}]", v.property, k.text, k.sig);
+                } else {
+                    failed += 1;
+                    println!("VIOLATION property={property} replay={f}");
+                    println!("  invariant={} class={} detail={}", v.invariant, v.class, v.detail.chars().take(300).collect::<String>());
+                }
+            }
+            Err(e) => {
+                eprintln!("HARNESS ERROR: regression file {f}: {e}");
+                std::process::exit(2);
+            }
+        }
+    }
+    (files.len(), failed)
+}
